@@ -105,6 +105,8 @@ namespace Givaro {
     {
         Integer U = P ;
         Integer V = gcd(P,Q) ;
+        // every integer divides 0: there is no largest divisor prime to Q, and the loop below would not end
+        if (isZero(U)) return U ;
         // -- computes the prime part U of g relatively to U
         while ( V != Integer::one )
         {
